@@ -517,6 +517,7 @@ func TestC17(t *testing.T) {
 		}
 		nt := st.tran3 >= 2 && st.blockedPuts >= 1
 		rec.Case(nt, "conc "+scriptsCanon(scripts))
+		rec.LabelIf(nt, "conc_nontrivial")
 		rec.LabelIf(st.blockedPuts >= 1, "conc_history_with_put_blocked_on_full_queue")
 		rec.LabelN("conc_puts_blocked_on_full_queue", st.blockedPuts)
 		rec.LabelIf(st.emptyGets >= 1, "conc_history_with_get_on_empty_queue")
